@@ -59,18 +59,21 @@ func init() {
 	engine.Register(&engine.Check{
 		ID:          "C11",
 		Title:       "Quadkeys are the bit-interleaving of x and y, and the round trip is exact",
-		Technique:   "exhaustive choice-tree enumeration (E1): all tiles of zooms 1..6 and index classes of zooms 7..31 against a bit-interleave reference; round trips and zoom-changing conversions of short lists against the dyadic-box model",
-		Assumptions: []string{"zoom differences above 3 and lists longer than 3 are not covered; index values outside the alphabet classes are not covered above zoom 6", "reference: ref.Quadkey / ref.FromQuadkey / ref.ChangeZoom"},
+		Technique:   "exhaustive choice-tree enumeration (E1): all tiles of zooms 1..7 (thorough 1..10) and index classes of the zooms above up to 31 against a bit-interleave reference; round trips and zoom-changing conversions of short lists against the dyadic-box model",
+		Assumptions: []string{"zoom differences above 3 and lists longer than 3 are not covered; index values outside the alphabet classes are not covered above zoom 7 (thorough: 10)", "reference: ref.Quadkey / ref.FromQuadkey / ref.ChangeZoom"},
 		Phases: func(tier string) []engine.Phase {
-			maxAll := int64(5)
+			maxAll := int64(7)
 			if tier == "thorough" {
-				maxAll = 7
+				maxAll = 10
 			}
 			hz := []int64{7, 8, 15, 16, 24, 25, 26, 30, 31}
 			if tier == "thorough" {
 				hz = alpha.Seq(8, 31)
 			}
 			vz := []int64{0, 1, 25, 35}
+			if tier == "thorough" {
+				vz = []int64{0, 1, 2, 7, 16, 24, 25, 26, 34, 35}
+			}
 			return []engine.Phase{
 				{Name: "all-tiles", ShardDepth: 2, Bounds: engine.Bounds{InputDev: -1},
 					Rule: "every tile (x,y) of zooms 1..maxAll: quadkey = bit interleave, 0 <= key < 4^z, inverse conversion returns (x,y); non-trivial = distinct tiles whose quadkey has a leading zero digit (x,y < 2^(z-1))",
